@@ -14,3 +14,27 @@ func VerifSetPageSize(n int) int {
 
 // VerifMaxKeys returns the current node fan-out.
 func VerifMaxKeys() int { return maxKeys }
+
+var verifMoveOnNewNode bool
+
+// VerifSetTreeMoveOnNewNode makes every fresh page allocation of an in-memory
+// Tree move the backing buffer to new memory (what Buffer.Grow legitimately
+// does whenever the capacity is exceeded) and poison the old memory, so that a
+// node reference held across newNode is exposed at once instead of only at the
+// rare capacity crossings.
+func VerifSetTreeMoveOnNewNode(on bool) { verifMoveOnNewNode = on }
+
+func verifTreeNewNode(t *Tree) {
+	if !verifMoveOnNewNode || t.buffer.bufType != UseCalloc {
+		return
+	}
+	old := t.buffer.buf
+	nb := Calloc(len(old), t.buffer.tag)
+	copy(nb, old)
+	t.buffer.buf = nb
+	t.data = t.buffer.Bytes()
+	for i := range old {
+		old[i] = 0xAB
+	}
+	Free(old)
+}
